@@ -9,7 +9,8 @@ spec -> code: Keywording_Export writes (repository, request lines, options) case
 code -> spec: seeded random repositories (3 packages, up to 3 versions, slots, random keyword sets incl. prefix and
               repository-unknown arches), random request lists with sentinels / ~ / unknown keywords, random options.
 Judged by Keywording_Trace: KnownArch, CcNarrowing, FilterNarrowing, OnlyNew, Suggest_Prefix, Suggest_NotTesting,
-Suggest_NotStableElsewhere, Stable_SpecRejected.
+Suggest_NotStableElsewhere, Suggest_AlreadyCarried, Suggest_NotKeywordedElsewhere (keywording: a suggestion is an arch the version
+does not carry and some version is keyworded for), Stable_SpecRejected, Match_Raised (an exception that is not a PkgcoreException).
 
 Carve-outs: cc_arches are arches the repository knows (DESIGN C40); a package carries an arch in one form only
 (not both amd64 and ~amd64); the all-arches option re-adds the stabilization candidates past cc / arch filter (documented
@@ -67,14 +68,16 @@ class Real:
                 cur[0] = n
                 yield self.parse_atom(self.spec_text(ln)), tuple(self.word(w) for w in ln["written"])
 
-        out, exc = [], ""
+        out, exc, crash = [], "", ""
         try:
             for req in self.kw.match_packages(repo, requested(), stable=o["stable"], cc_arches=tuple(o["cc"]), only_new=o["only_new"],
                                               filter_arch=tuple(o["filter"]), allarches=o["allarches"]):
                 out.append(dict(line=cur[0], name=req.pkg.key, ver=int(req.pkg.fullver), kws=list(req.keywords)))
-        except self.Exc as e:
+        except self.Exc as e:  # the documented ways a request ends
             exc = type(e).__name__
-        return dict(tid=tid, i=0, ev="match", repo=case["repo"], lines=case["lines"], opts=o, out=out, exc=exc)
+        except Exception as e:  # the code under test failed: an observation (judged by the trace spec), never a driver crash
+            exc = crash = type(e).__name__
+        return dict(tid=tid, i=0, ev="match", repo=case["repo"], lines=case["lines"], opts=o, out=out, exc=exc, crash=crash)
 
 
 # ---------------------------------------------------------------- random cases
@@ -91,15 +94,26 @@ def rnd_case(r):
                 kws.append([a, "stable" if x < 0.7 else "testing" if x < 0.95 else "neg"])
             pkgs.append(dict(name=name, ver=ver, slot=r.choice(["0", "0", "0", "1"]), kws=kws))
     lines = []
-    for _ in range(r.choice([0, 1, 1, 2, 2, 3, 4])):
+    # half of the lists name several versions of ONE package (whose keywords differ) and lean on the sentinels
+    focus = r.choice(["c/a", "c/b", "d/c"]) if r.random() < 0.5 else None
+    if focus:
+        known = sorted(ARCHES)
+    for _ in range(r.choice([2, 2, 3, 4]) if focus else r.choice([0, 1, 1, 2, 2, 3, 4])):
         op = r.choice(["=", "=", "=", "", ">="])
         written = []
-        for _ in range(r.choice([0, 1, 1, 2, 3])):
-            t = r.choice(["arch", "arch", "arch", "star", "star", "caret", "dash"] if r.random() < 0.9 else ["dash"])
+        for _ in range(r.choice([0, 1, 1, 1, 2]) if focus else r.choice([0, 1, 1, 2, 3])):
+            t = r.choice(["arch", "star", "star", "star", "caret"] if focus else
+                         ["arch", "arch", "arch", "star", "star", "caret", "dash"] if r.random() < 0.9 else ["dash"])
             arch = r.choice(ARCHES + (["bogus"] if r.random() < 0.15 else [])) if t == "arch" else ""
             written.append(dict(t=t, arch=arch, tilde=r.random() < 0.2))
-        lines.append(dict(op=op, name=r.choice(["c/a", "c/a", "c/b", "d/c", "c/zz"] if r.random() < 0.1 else ["c/a", "c/a", "c/b", "d/c"]),
-                          ver=r.choice([1, 2, 3]) if op else 0, slot=r.choice(["", "", "", "", "0", "1"]), written=written))
+        name = focus or r.choice(["c/a", "c/a", "c/b", "d/c", "c/zz"] if r.random() < 0.1 else ["c/a", "c/a", "c/b", "d/c"])
+        have = [p["ver"] for p in pkgs if p["name"] == name]
+        lines.append(dict(op=op, name=name, ver=(r.choice(have) if focus else r.choice([1, 2, 3])) if op else 0,
+                          slot="" if focus and r.random() < 0.9 else r.choice(["", "", "", "", "0", "1"]), written=written))
+    if focus and r.random() < 0.8:
+        for ln in lines:
+            ln["op"] = "="  # an exact version each: fine for a stabilization too
+            ln["ver"] = ln["ver"] or r.choice([p["ver"] for p in pkgs if p["name"] == focus])
     opts = dict(stable=r.random() < 0.6, cc=r.sample(known, r.choice([0, 0, 1, 2])), only_new=r.random() < 0.4,
                 filter=sorted(r.sample(ARCHES, r.choice([0, 0, 1, 2]))), allarches=r.random() < 0.4)
     return dict(repo=dict(known=known, pkgs=pkgs), lines=lines, opts=opts)
@@ -118,7 +132,7 @@ def pretty(e):
     real_lines = [Real.spec_text(ln) + " " + " ".join(Real.word(w) for w in ln["written"]) for ln in e["lines"]]
     return dict(lines=real_lines, opts=e["opts"], repo_known=e["repo"]["known"],
                 repo_pkgs=[f"{p['name']}-{p['ver']}:{p['slot']} " + " ".join(FORM[st] + a for a, st in p["kws"]) for p in e["repo"]["pkgs"]],
-                out=[[o["line"], f"{o['name']}-{o['ver']}", o["kws"]] for o in e["out"]], exc=e["exc"],
+                out=[[o["line"], f"{o['name']}-{o['ver']}", o["kws"]] for o in e["out"]], exc=e["exc"], crash=e.get("crash", ""),
                 mode="stable" if e["opts"]["stable"] else "keywording", allarches=e["opts"]["allarches"],
                 case=dict(repo=e["repo"], lines=e["lines"], opts=e["opts"]))
 
